@@ -5,6 +5,7 @@ import (
 	"encoding/json"
 	"fmt"
 	"time"
+	"unicode/utf8"
 
 	"github.com/matrix-org/gomatrixserverlib/spec"
 	"github.com/tidwall/gjson"
@@ -319,7 +320,9 @@ func (e *eventV1) StickyEndTime(received time.Time) time.Time {
 func newEventFromUntrustedJSONV1(eventJSON []byte, roomVersion IRoomVersion) (PDU, error) {
 	// The path-based readers used below find members in text that is not JSON
 	// at all, and do not agree with each other on what they find there.
-	if !gjson.ValidBytes(eventJSON) {
+	if !gjson.ValidBytes(eventJSON) || !utf8.Valid(eventJSON) {
+		// (JSON is UTF-8: encoding/json would read an invalid byte as U+FFFD,
+		// the byte-level readers would not)
 		return nil, BadJSONError{fmt.Errorf("gomatrixserverlib: event is not valid JSON")}
 	}
 	if r := gjson.GetBytes(eventJSON, "_*"); r.Exists() {
